@@ -80,6 +80,10 @@ fn main() {
                 f.data.truncate(20_000); // keep ratios far from the 1000:1 limit
             }
         }
+        // contents at the break-even point of the compressor the *target* will use
+        for (k, d) in break_even_contents(&mut rng, opt.comp.unwrap_or(cfg.method)).into_iter().enumerate() {
+            files.push(FileSpec { name: format!("breakeven\\f{k}.bin"), class: "break-even", data: d });
+        }
         let src = dir.join(format!("c07-{idx}-src.mpq"));
         let dst = dir.join(format!("c07-{idx}-dst.mpq"));
         let class = format!("src v{} {} e{} l{} a{} | {}", cfg.version, method_name(cfg.method), cfg.enc, cfg.listfile as u8, cfg.attr, opt.class());
